@@ -39,6 +39,7 @@ type SymStr struct {
 	signed bool     // symDec
 	id     int64
 	name   string // nondet name for symLen (native side builds a string of that length)
+	lowered *SymStr // symDec: byte-level form, created on first use
 }
 
 // IfaceV is an interface value; typ == nil is the nil interface.
